@@ -29,10 +29,29 @@ func main() {
 	tier := flag.String("tier", "quick", "quick|thorough")
 	overlay := flag.String("overlay", "", "comma separated orig=replacement file pairs (self-test mutants)")
 	list := flag.Bool("list", false, "list obligations")
+	discover := flag.String("discover", "", "print candidate statistics (locks) instead of checking")
 	flag.Parse()
 	seed := 0
 	if s := os.Getenv("VERIF_SEED"); s != "" {
 		seed, _ = strconv.Atoi(s)
+	}
+	if *discover != "" {
+		os.Setenv("PATH", "/opt/veriftools/go1.26.8/bin:"+os.Getenv("PATH"))
+		os.Unsetenv("GOWORK")
+		base, err := load(*repo, false, nil, "")
+		if err != nil {
+			fmt.Fprintln(os.Stderr, "infrastructure failure:", err)
+			os.Exit(2)
+		}
+		switch *discover {
+		case "locks":
+			base.discoverLocks()
+		case "errs":
+			base.discoverErrDrops()
+		case "pairs":
+			base.discoverLockPairs()
+		}
+		os.Exit(0)
 	}
 	if *prop == "" {
 		fmt.Fprintln(os.Stderr, "usage: stargzlint -prop C01 [-tier quick|thorough]")
@@ -104,6 +123,7 @@ func main() {
 				}
 			}()
 			props[id].run(c)
+			runGeneric(c, id)
 		}()
 		if *list {
 			for _, o := range c.obs {
@@ -121,6 +141,7 @@ func main() {
 					}
 				}()
 				props[id].run(ac)
+				runGeneric(ac, id)
 			}()
 			nAlt := 0
 			for _, o := range ac.obs {
